@@ -99,6 +99,20 @@ def power_supply(x: "MultiVector", exponents: Tuple[int, ...], operation: Callab
         yield powers[step]
 
 
+def _type_id(mv) -> str:
+    """
+    Identifier of the key pattern of :code:`mv` for use in generated function names: its
+    :code:`type_number`, extended with the keys themselves when they are not in canonical order.
+    (The :code:`type_number` only encodes which keys are present, while the generated functions
+    also depend on the order of the keys.)
+    """
+    keys = tuple(mv.keys())
+    canon_keys = tuple(k for k in mv.algebra.canon2bin.values() if k in keys)
+    if keys == canon_keys:
+        return f'{mv.type_number}'
+    return f'{mv.type_number}_' + '_'.join(str(k) for k in keys)
+
+
 class CodegenOutput(NamedTuple):
     """
     Output of a codegen function.
@@ -307,7 +321,7 @@ def codegen_inv(y, x=None, symbolic=False):
     expr_dict = dict(yinv.items())
     dependencies = list(zip(d.values(), denom_inv.values()))
     return LambdifyInput(
-        funcname=f'codegen_inv_{y.type_number}',
+        funcname=f'codegen_inv_{_type_id(y)}',
         expr_dict=expr_dict,
         args=args,
         dependencies=dependencies,
@@ -397,7 +411,7 @@ def codegen_div(x, y):
     expr_dict = dict(res.items())
     dependencies = list(zip(d.values(), denom_inv.values()))
     return LambdifyInput(
-        funcname=f'div_{x.type_number}_x_{y.type_number}',
+        funcname=f'div_{_type_id(x)}_x_{_type_id(y)}',
         expr_dict=expr_dict,
         args=args,
         dependencies=dependencies,
@@ -526,7 +540,7 @@ def codegen_sqrt(x):
     expr_dict = dict(res.items())
     dependencies = [*zip(c.values(), [cp]), *zip(c2_inv.values(), [f'0.5 / {cp}'])]
     return LambdifyInput(
-        funcname=f'sqrt_{x.type_number}',
+        funcname=f'sqrt_{_type_id(x)}',
         expr_dict=expr_dict,
         args=args,
         dependencies=dependencies,
@@ -566,7 +580,7 @@ def _lambdify_mv(mv):
     func = lambdify(
         args={'x': sorted(mv.free_symbols, key=lambda x: x.name)},
         exprs=list(mv.values()),
-        funcname=f'custom_{mv.type_number}',
+        funcname=f'custom_{_type_id(mv)}',
         cse=mv.algebra.cse
     )
     return CodegenOutput(tuple(mv.keys()), func)
@@ -592,7 +606,7 @@ def do_codegen(codegen, *mvs) -> CodegenOutput:
         dependencies = res.dependencies
         res = res.expr_dict
     else:
-        funcname = f'{codegen.__name__}_' + '_x_'.join(f"{mv.type_number}" for mv in mvs)
+        funcname = f'{codegen.__name__}_' + '_x_'.join(_type_id(mv) for mv in mvs)
         args = {arg_name: arg.values() for arg_name, arg in zip(string.ascii_uppercase, mvs)}
         dependencies = None
 
@@ -615,7 +629,7 @@ def do_compile(codegen, *tapes):
     namespace = algebra.numspace
 
     res = codegen(*tapes)
-    funcname = f'{codegen.__name__}_' + '_x_'.join(f"{tape.type_number}" for tape in tapes)
+    funcname = f'{codegen.__name__}_' + '_x_'.join(_type_id(tape) for tape in tapes)
     funcstr = f"def {funcname}({', '.join(t.expr for t in tapes)}):"
     if not isinstance(res, str):
         funcstr += f"    return {res.expr}"
